@@ -90,7 +90,7 @@ impl Prop for C09 {
     }
 
     fn health(&self, tier: Tier) -> Vec<(&'static str, u64)> {
-        let m = tier.pick(1, 30);
+        let m = tier.pick(1, 10);
         vec![("multi-block-index-level", 40 * m), ("written-by-047", 1500 * m), ("codec=zstd", 150 * m), ("codec=lz4", 150 * m)]
     }
 
